@@ -30,8 +30,8 @@ def bytesToJson (b : Bytes) : Json := Json.str (hexOfBytes b)
 def dictToJson {α} (f : α → Json) (d : Dict α) : Json := listToJson (fun p => Json.arr #[bytesToJson p.1, f p.2]) d
 
 def headerToJson (h : Header) : Json :=
-  obj [("title", optToJson bytesToJson h.title), ("artist", optToJson bytesToJson h.artist),
-       ("version", optToJson bytesToJson h.version), ("ln_end", bytesToJson h.lnEnd),
+  obj [("title", bytesToJson h.title), ("artist", bytesToJson h.artist),
+       ("version", bytesToJson h.version), ("ln_end", bytesToJson h.lnEnd),
        ("exbpms", dictToJson ratToJson h.exbpms), ("samples", dictToJson bytesToJson h.samples),
        ("bpm0", ratToJson h.bpm0), ("misc", dictToJson bytesToJson h.misc)]
 
